@@ -1,14 +1,21 @@
 /-
   Proofs/Strings.lean — string-level facts used by C15 (printing/parsing):
-  decimal printing of naturals (`toString : Nat → String` = `Nat.repr`), `String.toNat!`,
-  `Prime.isDigits`, `String.startsWith "-"`, `String.drop 1`, and the bit-level content of
-  the binary-field printer.
+  * decimal printing of naturals (`toString : Nat → String` = `Nat.repr`), `String.toNat!`,
+    `Prime.isDigits`, `String.startsWith "-"`, `String.drop 1`; `Prime.parse` unfolded on its
+    accepted shapes (`parse_cases`, `parse_of_isDigits`, `parse_minus_of_isDigits`);
+  * the binary-field printer `Bin.toStr`: degree list ↔ value, string-level injectivity;
+  * the univariate printer `UPoly.toStr` over `primeOps p`: string-level injectivity;
+  * the total helpers of the regex-based parsers (`parseUint`, `parseIntDigits`, `parseExponent`,
+    `quoteMeta`, `trimParens`) and the error kinds those parsers can return.
+  Core + Std only (no Mathlib).
 -/
 import Std.Data.String.ToNat
 import Algobra.Model.Field
+import Algobra.Model.Ext
+import Algobra.Model.BPoly
 
 namespace Algobra.Strings
-open Algobra
+open Algobra Algobra.Regex
 
 /-! ### `String.toNat!` -/
 
@@ -189,5 +196,792 @@ theorem degs_pairwise (n v : Nat) : (degs n v).Pairwise (· > ·) := by
   apply List.Pairwise.filter
   rw [List.pairwise_reverse]
   exact List.pairwise_lt_range
+
+/-! ### the binary-field printer is injective -/
+
+/-- one printed term of `Bin.toStr` -/
+def binTerm (w : String) (d : Nat) : String :=
+  if d = 0 then "1" else if d = 1 then w else w ++ "^" ++ toString d
+
+theorem toStr_eq (w : String) (n v : Nat) :
+    Bin.toStr w n v =
+      if v = 0 then "0" else " + ".intercalate ((degs n v).map (binTerm w)) := rfl
+
+/-- characters of the joined term list -/
+def J (w : String) (l : List Nat) : List Char :=
+  (" + ".intercalate (l.map (binTerm w))).toList
+
+/-- what follows the first term: nothing, or the separator and the remaining terms -/
+def R (w : String) (l : List Nat) : List Char :=
+  if l = [] then [] else ' ' :: '+' :: ' ' :: J w l
+
+theorem J_nil (w : String) : J w [] = [] := by simp [J]
+
+theorem J_cons (w : String) (d : Nat) (l : List Nat) :
+    J w (d :: l) = (binTerm w d).toList ++ R w l := by
+  cases l with
+  | nil => simp [J, R]
+  | cons e t => simp [J, R]
+
+theorem R_head (w : String) (l : List Nat) : R w l = [] ∨ ∃ t, R w l = ' ' :: t := by
+  unfold R; split
+  · exact Or.inl rfl
+  · exact Or.inr ⟨_, rfl⟩
+
+theorem binTerm_toList (w : String) (d : Nat) :
+    (binTerm w d).toList =
+      if d = 0 then ['1'] else w.toList ++ (if d = 1 then [] else '^' :: (toString d).toList) := by
+  unfold binTerm
+  split
+  · rfl
+  · split <;> simp
+
+/-- digits followed by "nothing or something starting with a blank" split uniquely -/
+theorem digits_append_inj {D D' X X' : List Char}
+    (hD : ∀ c ∈ D, c.isDigit = true) (hD' : ∀ c ∈ D', c.isDigit = true)
+    (hX : X = [] ∨ ∃ t, X = ' ' :: t) (hX' : X' = [] ∨ ∃ t, X' = ' ' :: t)
+    (h : D ++ X = D' ++ X') : D = D' ∧ X = X' := by
+  have key : ∀ {D X : List Char}, (∀ c ∈ D, c.isDigit = true) → (X = [] ∨ ∃ t, X = ' ' :: t) →
+      (D ++ X).takeWhile Char.isDigit = D := by
+    intro D X hD hX
+    rw [List.takeWhile_append_of_pos hD]
+    rcases hX with rfl | ⟨t, rfl⟩
+    · simp
+    · rw [List.takeWhile_cons_of_neg (by decide)]; simp
+  have hDD : D = D' := by rw [← key hD hX, h, key hD' hX']
+  subst hDD
+  exact ⟨rfl, List.append_cancel_left h⟩
+
+/-- the first term and the remainder are determined by the string -/
+theorem head_inj {w : String} (hw : w ≠ "") (h1 : w ≠ "1") {d d' : Nat} {l l' : List Nat}
+    (hl : d = 0 → l = []) (hl' : d' = 0 → l' = [])
+    (h : (binTerm w d).toList ++ R w l = (binTerm w d').toList ++ R w l') :
+    d = d' ∧ R w l = R w l' := by
+  have hW : w.toList ≠ [] := by simpa using hw
+  have hW1 : w.toList ≠ ['1'] := by
+    intro h; apply h1; apply String.toList_inj.1; rw [h]; rfl
+  -- a term of positive degree never equals "1" followed by nothing
+  have pos_ne : ∀ (e : Nat) (X : List Char), e ≠ 0 → (binTerm w e).toList ++ X ≠ ['1'] := by
+    intro e X he hc
+    rw [binTerm_toList, if_neg he, List.append_assoc] at hc
+    rcases List.append_eq_cons_iff.1 hc with ⟨h, _⟩ | ⟨t, ht, hnil⟩
+    · exact hW h
+    · have := List.append_eq_nil_iff.1 hnil.symm
+      rw [this.1] at ht; exact hW1 ht
+  by_cases hd : d = 0
+  · by_cases hd' : d' = 0
+    · rw [hl hd, hl' hd']; exact ⟨by omega, rfl⟩
+    · exfalso
+      rw [hl hd, hd] at h
+      exact pos_ne d' _ hd' (h.symm.trans (by simp [binTerm, R]))
+  · by_cases hd' : d' = 0
+    · exfalso
+      rw [hl' hd', hd'] at h
+      exact pos_ne d _ hd (h.trans (by simp [binTerm, R]))
+    · rw [binTerm_toList, binTerm_toList, if_neg hd, if_neg hd', List.append_assoc,
+        List.append_assoc] at h
+      have h := List.append_cancel_left h
+      by_cases e1 : d = 1 <;> by_cases e1' : d' = 1
+      · exact ⟨by omega, by simpa [e1, e1'] using h⟩
+      · exfalso
+        rw [if_pos e1, if_neg e1'] at h
+        rcases R_head w l with h0 | ⟨t, ht⟩
+        · rw [h0] at h; simp at h
+        · rw [ht] at h; simp at h
+      · exfalso
+        rw [if_neg e1, if_pos e1'] at h
+        rcases R_head w l' with h0 | ⟨t, ht⟩
+        · rw [h0] at h; simp at h
+        · rw [ht] at h; simp at h
+      · rw [if_neg e1, if_neg e1'] at h
+        simp only [List.cons_append, List.cons.injEq, true_and] at h
+        obtain ⟨hD, hR⟩ := digits_append_inj (fun c hc => mem_toString_isDigit hc)
+          (fun c hc => mem_toString_isDigit hc) (R_head w l) (R_head w l') h
+        have : toString d = toString d' := String.toList_inj.1 hD
+        exact ⟨by simpa using this, hR⟩
+
+theorem R_inj {w : String} {l l' : List Nat} (h : R w l = R w l') :
+    (l = [] ∧ l' = []) ∨ (l ≠ [] ∧ l' ≠ [] ∧ J w l = J w l') := by
+  unfold R at h
+  by_cases e : l = [] <;> by_cases e' : l' = []
+  · exact Or.inl ⟨e, e'⟩
+  · rw [if_pos e, if_neg e'] at h; cases h
+  · rw [if_neg e, if_pos e'] at h; cases h
+  · rw [if_neg e, if_neg e'] at h
+    exact Or.inr ⟨e, e', by simpa using h⟩
+
+/-- strictly decreasing degree lists are determined by the joined string -/
+theorem J_inj {w : String} (hw : w ≠ "") (h1 : w ≠ "1") :
+    ∀ {l l' : List Nat}, l.Pairwise (· > ·) → l'.Pairwise (· > ·) → l ≠ [] → l' ≠ [] →
+      J w l = J w l' → l = l' := by
+  intro l
+  induction l with
+  | nil => intro l' _ _ h; exact absurd rfl h
+  | cons d t ih =>
+    intro l' hp hp' _ hne' h
+    cases l' with
+    | nil => exact absurd rfl hne'
+    | cons d' t' =>
+      rw [J_cons, J_cons] at h
+      have hl : d = 0 → t = [] := by
+        intro hd
+        cases t with
+        | nil => rfl
+        | cons e _ => have := (List.pairwise_cons.1 hp).1 e (by simp); omega
+      have hl' : d' = 0 → t' = [] := by
+        intro hd
+        cases t' with
+        | nil => rfl
+        | cons e _ => have := (List.pairwise_cons.1 hp').1 e (by simp); omega
+      obtain ⟨hdd, hR⟩ := head_inj hw h1 hl hl' h
+      subst hdd
+      rcases R_inj hR with ⟨e, e'⟩ | ⟨e, e', hJ⟩
+      · rw [e, e']
+      · rw [ih (List.pairwise_cons.1 hp).2 (List.pairwise_cons.1 hp').2 e e' hJ]
+
+/-- a non-empty joined term list is never the string "0" -/
+theorem J_ne_zero {w : String} (hw : w ≠ "") (h0 : w ≠ "0") {l : List Nat} (hl : l ≠ []) :
+    J w l ≠ ['0'] := by
+  have hW : w.toList ≠ [] := by simpa using hw
+  have hW0 : w.toList ≠ ['0'] := by
+    intro h; apply h0; apply String.toList_inj.1; rw [h]; rfl
+  cases l with
+  | nil => exact absurd rfl hl
+  | cons d t =>
+    rw [J_cons, binTerm_toList]
+    intro hc
+    split at hc
+    · simp at hc
+    · rw [List.append_assoc] at hc
+      rcases List.append_eq_cons_iff.1 hc with ⟨h, _⟩ | ⟨t', ht, hnil⟩
+      · exact hW h
+      · have := List.append_eq_nil_iff.1 hnil.symm
+        rw [this.1] at ht; exact hW0 ht
+
+/-- `Bin.toStr` is injective on values of at most `n+1` bits, for every variable name the setter
+    `SetVarName` accepts (non-empty, not "0", not "1"). -/
+theorem toStr_injective {w : String} (hw : w ≠ "") (h0 : w ≠ "0") (h1 : w ≠ "1")
+    {n a b : Nat} (ha : a < 2 ^ (n + 1)) (hb : b < 2 ^ (n + 1))
+    (h : Bin.toStr w n a = Bin.toStr w n b) : a = b := by
+  rw [toStr_eq, toStr_eq] at h
+  have hla : a ≠ 0 → degs n a ≠ [] := fun h => mt (degs_eq_nil_iff ha).1 h
+  have hlb : b ≠ 0 → degs n b ≠ [] := fun h => mt (degs_eq_nil_iff hb).1 h
+  by_cases ea : a = 0 <;> by_cases eb : b = 0
+  · rw [ea, eb]
+  · exfalso
+    rw [if_pos ea, if_neg eb] at h
+    exact J_ne_zero hw h0 (hlb eb) (congrArg String.toList h).symm
+  · exfalso
+    rw [if_neg ea, if_pos eb] at h
+    exact J_ne_zero hw h0 (hla ea) (congrArg String.toList h)
+  · rw [if_neg ea, if_neg eb] at h
+    exact degs_injective ha hb
+      (J_inj hw h1 (degs_pairwise n a) (degs_pairwise n b) (hla ea) (hlb eb)
+        (congrArg String.toList h))
+
+/-! ### the total helpers of the regex-based parsers -/
+
+theorem parseUint_eq (s : String) :
+    parseUint s = if Prime.isDigits s then
+        (if s.toNat! < 2 ^ 64 then some s.toNat! else none) else none := by
+  unfold parseUint Prime.isDigits
+  cases h1 : s.isEmpty <;> cases h2 : s.all Char.isDigit <;> simp
+
+theorem parseIntDigits_eq (s : String) :
+    parseIntDigits s = if Prime.isDigits s then
+        (if s.toNat! < 2 ^ 63 then some s.toNat! else none) else none := by
+  unfold parseIntDigits Prime.isDigits
+  cases h1 : s.isEmpty <;> cases h2 : s.all Char.isDigit <;> simp
+
+/-- `strconv.ParseUint` reads back a printed exponent -/
+theorem parseUint_toString {n : Nat} (h : n < 2 ^ 64) : parseUint (toString n) = some n := by
+  rw [parseUint_eq, if_pos (isDigits_toString n), toNat!_toString, if_pos h]
+
+theorem parseIntDigits_toString {n : Nat} (h : n < 2 ^ 63) :
+    parseIntDigits (toString n) = some n := by
+  rw [parseIntDigits_eq, if_pos (isDigits_toString n), toNat!_toString, if_pos h]
+
+theorem parseExponent_toString {n : Nat} (h : n < 2 ^ 64) :
+    BPoly.parseExponent (toString n) = some n := by
+  unfold BPoly.parseExponent
+  have : (toString n == "") = false := by simp
+  rw [this]
+  exact parseUint_toString h
+
+theorem parseExponent_empty : BPoly.parseExponent "" = some 1 := by
+  unfold BPoly.parseExponent; simp
+
+/-- `regexp.QuoteMeta` leaves names without metacharacters alone -/
+theorem quoteMeta_eq_self {s : String}
+    (h : ∀ c ∈ s.toList, c ∉ "\\.+*?()|[]{}^$".toList) : quoteMeta s = s := by
+  unfold quoteMeta
+  apply String.toList_inj.1
+  rw [String.toList_ofList]
+  generalize s.toList = l at h
+  induction l with
+  | nil => rfl
+  | cons c t ih =>
+    rw [List.flatMap_cons, ih (fun x hx => h x (List.mem_cons_of_mem _ hx))]
+    have hc : ("\\.+*?()|[]{}^$".toList.contains c) = false := by
+      simpa using h c (by simp)
+    rw [hc]; rfl
+
+/-! ### the univariate printer over a prime field is injective -/
+
+/-- one printed term of `UPoly.toStr (primeOps p)` -/
+def uTerm (v : String) (c d : Nat) : String :=
+  (if !(c == 1) || d == 0 then toString c else "") ++
+    (if d == 1 then v else if d > 1 then v ++ "^" ++ toString d else "")
+
+theorem utoStr_eq (p : Nat) (v : String) (f : UPoly Nat) :
+    UPoly.toStr (primeOps p) v f =
+      if UPoly.isZero (primeOps p) f then "0"
+      else " + ".intercalate ((UPoly.degrees (primeOps p) f).map fun d =>
+        uTerm v (UPoly.coef (primeOps p) f d) d) := rfl
+
+theorem mem_degrees (p : Nat) (f : UPoly Nat) (d : Nat) :
+    d ∈ UPoly.degrees (primeOps p) f ↔ f.getD d 0 ≠ 0 := by
+  unfold UPoly.degrees
+  simp only [List.mem_reverse, List.mem_map, List.mem_filter, Prod.exists]
+  constructor
+  · rintro ⟨c, i, ⟨hm, hz⟩, rfl⟩
+    rw [List.mem_zipIdx_iff_getElem?] at hm
+    simp only [List.getD_eq_getElem?_getD, hm, Option.getD_some]
+    change (!(c == 0)) = true at hz
+    simpa using hz
+  · intro h
+    refine ⟨f.getD d 0, d, ⟨?_, ?_⟩, rfl⟩
+    · rw [List.mem_zipIdx_iff_getElem?]
+      rw [List.getD_eq_getElem?_getD] at h ⊢
+      cases hq : f[d]? with
+      | none => rw [hq] at h; exact absurd rfl h
+      | some x => rfl
+    · change (!(f.getD d 0 == 0)) = true
+      simpa using h
+
+/-- digits followed by "nothing or something starting with a non-digit" split uniquely -/
+theorem digits_append_inj' {D D' X X' : List Char}
+    (hD : ∀ c ∈ D, c.isDigit = true) (hD' : ∀ c ∈ D', c.isDigit = true)
+    (hX : ∀ c ∈ X.head?, c.isDigit = false) (hX' : ∀ c ∈ X'.head?, c.isDigit = false)
+    (h : D ++ X = D' ++ X') : D = D' ∧ X = X' := by
+  have key : ∀ {D X : List Char}, (∀ c ∈ D, c.isDigit = true) →
+      (∀ c ∈ X.head?, c.isDigit = false) → (D ++ X).takeWhile Char.isDigit = D := by
+    intro D X hD hX
+    rw [List.takeWhile_append_of_pos hD]
+    cases X with
+    | nil => simp
+    | cons x t =>
+      have := hX x (by simp)
+      rw [List.takeWhile_cons_of_neg (by simp [this])]; simp
+  have hDD : D = D' := by rw [← key hD hX, h, key hD' hX']
+  subst hDD
+  exact ⟨rfl, List.append_cancel_left h⟩
+
+def JU (v : String) (l : List (Nat × Nat)) : List Char :=
+  (" + ".intercalate (l.map fun t => uTerm v t.1 t.2)).toList
+
+def RU (v : String) (l : List (Nat × Nat)) : List Char :=
+  if l = [] then [] else ' ' :: '+' :: ' ' :: JU v l
+
+theorem JU_cons (v : String) (t : Nat × Nat) (l : List (Nat × Nat)) :
+    JU v (t :: l) = (uTerm v t.1 t.2).toList ++ RU v l := by
+  cases l with
+  | nil => simp [JU, RU]
+  | cons e t => simp [JU, RU]
+
+theorem RU_head (v : String) (l : List (Nat × Nat)) : RU v l = [] ∨ ∃ t, RU v l = ' ' :: t := by
+  unfold RU; split
+  · exact Or.inl rfl
+  · exact Or.inr ⟨_, rfl⟩
+
+/-- coefficient part and variable part of a term -/
+def uCoefPart (c d : Nat) : List Char := if c ≠ 1 ∨ d = 0 then (toString c).toList else []
+
+def uVarPart (v : String) (d : Nat) : List Char :=
+  if d = 0 then [] else v.toList ++ (if d = 1 then [] else '^' :: (toString d).toList)
+
+theorem uTerm_toList (v : String) (c d : Nat) :
+    (uTerm v c d).toList = uCoefPart c d ++ uVarPart v d := by
+  unfold uTerm uCoefPart uVarPart
+  rw [String.toList_append]
+  congr 1
+  · by_cases h1 : c = 1 <;> by_cases h0 : d = 0 <;> simp [h1, h0]
+  · by_cases h0 : d = 0
+    · simp [h0]
+    · by_cases h1 : d = 1
+      · simp [h1]
+      · have : d > 1 := by omega
+        simp [h0, h1, this]
+
+theorem uCoefPart_digits (c d : Nat) : ∀ x ∈ uCoefPart c d, x.isDigit = true := by
+  unfold uCoefPart; split
+  · exact fun x hx => mem_toString_isDigit hx
+  · simp
+
+/-- the first term and the remainder are determined by the string; the variable name only has to
+    start with a character that is neither a digit nor a blank -/
+theorem uhead_inj {v : String} {x : Char} {vt : List Char} (hv : v.toList = x :: vt)
+    (hx1 : x.isDigit = false) (hx2 : x ≠ ' ') {c d c' d' : Nat} {l l' : List (Nat × Nat)}
+    (h : (uTerm v c d).toList ++ RU v l = (uTerm v c' d').toList ++ RU v l') :
+    c = c' ∧ d = d' ∧ RU v l = RU v l' := by
+  rw [uTerm_toList, uTerm_toList, List.append_assoc, List.append_assoc] at h
+  -- what follows the coefficient starts with a non-digit
+  have hnd : ∀ (e : Nat) (k : List (Nat × Nat)), ∀ y ∈ (uVarPart v e ++ RU v k).head?,
+      y.isDigit = false := by
+    intro e k y hy
+    unfold uVarPart at hy
+    split at hy
+    · rcases RU_head v k with h0 | ⟨t, ht⟩
+      · rw [h0] at hy; simp at hy
+      · rw [ht] at hy; simp at hy; rw [← hy]; decide
+    · rw [hv] at hy; simp at hy; rw [← hy]; exact hx1
+  obtain ⟨hD, hW⟩ := digits_append_inj' (uCoefPart_digits c d) (uCoefPart_digits c' d')
+    (hnd d l) (hnd d' l') h
+  -- variable part
+  have hdd : d = d' ∧ RU v l = RU v l' := by
+    unfold uVarPart at hW
+    by_cases e0 : d = 0 <;> by_cases e0' : d' = 0
+    · rw [if_pos e0, if_pos e0'] at hW
+      exact ⟨by omega, by simpa using hW⟩
+    · exfalso
+      rw [if_pos e0, if_neg e0', hv] at hW
+      rcases RU_head v l with h0 | ⟨t, ht⟩
+      · rw [h0] at hW; simp at hW
+      · rw [ht] at hW; simp at hW; exact hx2 hW.1.symm
+    · exfalso
+      rw [if_neg e0, if_pos e0', hv] at hW
+      rcases RU_head v l' with h0 | ⟨t, ht⟩
+      · rw [h0] at hW; simp at hW
+      · rw [ht] at hW; simp at hW; exact hx2 hW.1
+    · rw [if_neg e0, if_neg e0', List.append_assoc, List.append_assoc] at hW
+      have hW := List.append_cancel_left hW
+      by_cases e1 : d = 1 <;> by_cases e1' : d' = 1
+      · exact ⟨by omega, by simpa [e1, e1'] using hW⟩
+      · exfalso
+        rw [if_pos e1, if_neg e1'] at hW
+        rcases RU_head v l with h0 | ⟨t, ht⟩
+        · rw [h0] at hW; simp at hW
+        · rw [ht] at hW; simp at hW
+      · exfalso
+        rw [if_neg e1, if_pos e1'] at hW
+        rcases RU_head v l' with h0 | ⟨t, ht⟩
+        · rw [h0] at hW; simp at hW
+        · rw [ht] at hW; simp at hW
+      · rw [if_neg e1, if_neg e1'] at hW
+        simp only [List.cons_append, List.cons.injEq, true_and] at hW
+        obtain ⟨hE, hR⟩ := digits_append_inj (fun c hc => mem_toString_isDigit hc)
+          (fun c hc => mem_toString_isDigit hc) (RU_head v l) (RU_head v l') hW
+        have : toString d = toString d' := String.toList_inj.1 hE
+        exact ⟨by simpa using this, hR⟩
+  obtain ⟨hd, hR⟩ := hdd
+  subst hd
+  refine ⟨?_, rfl, hR⟩
+  -- coefficient part
+  unfold uCoefPart at hD
+  have hne : ∀ n : Nat, (toString n).toList ≠ [] := by
+    intro n; simp
+  by_cases a : c ≠ 1 ∨ d = 0 <;> by_cases a' : c' ≠ 1 ∨ d = 0
+  · rw [if_pos a, if_pos a'] at hD
+    have : toString c = toString c' := String.toList_inj.1 hD
+    simpa using this
+  · rw [if_pos a, if_neg a'] at hD; exact absurd hD (hne c)
+  · rw [if_neg a, if_pos a'] at hD; exact absurd hD.symm (hne c')
+  · omega
+
+theorem RU_inj {v : String} {l l' : List (Nat × Nat)} (h : RU v l = RU v l') :
+    (l = [] ∧ l' = []) ∨ (l ≠ [] ∧ l' ≠ [] ∧ JU v l = JU v l') := by
+  unfold RU at h
+  by_cases e : l = [] <;> by_cases e' : l' = []
+  · exact Or.inl ⟨e, e'⟩
+  · rw [if_pos e, if_neg e'] at h; cases h
+  · rw [if_neg e, if_pos e'] at h; cases h
+  · rw [if_neg e, if_neg e'] at h
+    exact Or.inr ⟨e, e', by simpa using h⟩
+
+/-- the list of (coefficient, degree) pairs is determined by the joined string -/
+theorem JU_inj {v : String} {x : Char} {vt : List Char} (hv : v.toList = x :: vt)
+    (hx1 : x.isDigit = false) (hx2 : x ≠ ' ') :
+    ∀ {l l' : List (Nat × Nat)}, l ≠ [] → l' ≠ [] → JU v l = JU v l' → l = l' := by
+  intro l
+  induction l with
+  | nil => intro l' h; exact absurd rfl h
+  | cons t tl ih =>
+    intro l' _ hne' h
+    cases l' with
+    | nil => exact absurd rfl hne'
+    | cons t' tl' =>
+      rw [JU_cons, JU_cons] at h
+      obtain ⟨hc, hd, hR⟩ := uhead_inj hv hx1 hx2 h
+      have ht : t = t' := Prod.ext hc hd
+      subst ht
+      rcases RU_inj hR with ⟨e, e'⟩ | ⟨e, e', hJ⟩
+      · rw [e, e']
+      · rw [ih e e' hJ]
+
+/-- a non-empty joined list of terms with nonzero coefficients is never "0" -/
+theorem JU_ne_zero {v : String} {x : Char} {vt : List Char} (hv : v.toList = x :: vt)
+    (hx1 : x.isDigit = false) {l : List (Nat × Nat)} (hl : l ≠ []) (hc : ∀ t ∈ l, t.1 ≠ 0) :
+    JU v l ≠ ['0'] := by
+  cases l with
+  | nil => exact absurd rfl hl
+  | cons t tl =>
+    intro h
+    rw [JU_cons, uTerm_toList, List.append_assoc] at h
+    have h' : uCoefPart t.1 t.2 ++ (uVarPart v t.2 ++ RU v tl) = (toString 0).toList ++ [] := by
+      rw [h]; rfl
+    have hnd : ∀ y ∈ (uVarPart v t.2 ++ RU v tl).head?, y.isDigit = false := by
+      intro y hy
+      unfold uVarPart at hy
+      split at hy
+      · rcases RU_head v tl with h0 | ⟨t, ht⟩
+        · rw [h0] at hy; simp at hy
+        · rw [ht] at hy; simp at hy; rw [← hy]; decide
+      · rw [hv] at hy; simp at hy; rw [← hy]; exact hx1
+    obtain ⟨hD, hX⟩ := digits_append_inj' (uCoefPart_digits _ _)
+      (fun c hc => mem_toString_isDigit hc) hnd (by simp) h'
+    have hV : uVarPart v t.2 = [] := (List.append_eq_nil_iff.1 hX).1
+    have hd0 : t.2 = 0 := by
+      unfold uVarPart at hV
+      split at hV
+      · assumption
+      · rw [hv] at hV; simp at hV
+    unfold uCoefPart at hD
+    rw [if_pos (Or.inr hd0)] at hD
+    have : toString t.1 = toString 0 := String.toList_inj.1 hD
+    have : t.1 = 0 := by simpa using this
+    exact hc t (by simp) this
+
+/-- the printed (coefficient, degree) pairs of a polynomial -/
+def uPairs (p : Nat) (f : UPoly Nat) : List (Nat × Nat) :=
+  (UPoly.degrees (primeOps p) f).map fun d => (UPoly.coef (primeOps p) f d, d)
+
+theorem coef_eq (p : Nat) (f : UPoly Nat) (d : Nat) : UPoly.coef (primeOps p) f d = f.getD d 0 := rfl
+
+theorem mem_uPairs {p : Nat} {f : UPoly Nat} {t : Nat × Nat} :
+    t ∈ uPairs p f ↔ t.1 = f.getD t.2 0 ∧ t.1 ≠ 0 := by
+  unfold uPairs
+  simp only [List.mem_map, mem_degrees, coef_eq]
+  constructor
+  · rintro ⟨d, hd, rfl⟩; exact ⟨rfl, hd⟩
+  · rintro ⟨h1, h2⟩; exact ⟨t.2, by rw [← h1]; exact h2, Prod.ext h1.symm rfl⟩
+
+theorem getD_eq_of_uPairs_eq {p : Nat} {f g : UPoly Nat} (h : uPairs p f = uPairs p g) (i : Nat) :
+    f.getD i 0 = g.getD i 0 := by
+  by_cases hf : f.getD i 0 = 0
+  · by_cases hg : g.getD i 0 = 0
+    · rw [hf, hg]
+    · have : (g.getD i 0, i) ∈ uPairs p g := mem_uPairs.2 ⟨rfl, hg⟩
+      rw [← h] at this
+      exact (mem_uPairs.1 this).1.symm
+  · have : (f.getD i 0, i) ∈ uPairs p f := mem_uPairs.2 ⟨rfl, hf⟩
+    rw [h] at this
+    exact (mem_uPairs.1 this).1
+
+theorem canon_length_le {p : Nat} {f g : UPoly Nat} (hg : UPoly.Canon (primeOps p) g) (hf : f ≠ [])
+    (h : ∀ i, f.getD i 0 = g.getD i 0) : g.length ≤ f.length := by
+  by_cases hlt : g.length ≤ f.length
+  · exact hlt
+  · exfalso
+    have hf1 : 1 ≤ f.length := by
+      cases f with
+      | nil => exact absurd rfl hf
+      | cons _ _ => simp
+    have hlast := hg.2 (by omega)
+    have hgl : g.getLast? = g[g.length - 1]? := List.getLast?_eq_getElem? ..
+    have hidx : g.length - 1 < g.length := by omega
+    have hg' : g.getD (g.length - 1) 0 ≠ 0 := by
+      rw [hgl, List.getElem?_eq_getElem hidx] at hlast
+      rw [List.getD_eq_getElem?_getD, List.getElem?_eq_getElem hidx]
+      change ((g[g.length - 1] == 0) = false) at hlast
+      simpa using hlast
+    have hf' : f.getD (g.length - 1) 0 = 0 := by
+      rw [List.getD_eq_getElem?_getD, List.getElem?_eq_none (by omega)]; rfl
+    exact hg' (by rw [← h, hf'])
+
+theorem canon_ext {p : Nat} {f g : UPoly Nat} (hf : UPoly.Canon (primeOps p) f)
+    (hg : UPoly.Canon (primeOps p) g) (h : ∀ i, f.getD i 0 = g.getD i 0) : f = g := by
+  have hl : f.length = g.length :=
+    Nat.le_antisymm (canon_length_le hf hg.1 (fun i => (h i).symm)) (canon_length_le hg hf.1 h)
+  apply List.ext_getElem hl
+  intro i h1 h2
+  have := h i
+  rw [List.getD_eq_getElem?_getD, List.getD_eq_getElem?_getD, List.getElem?_eq_getElem h1,
+    List.getElem?_eq_getElem h2] at this
+  exact this
+
+theorem isZero_iff (p : Nat) (f : UPoly Nat) : UPoly.isZero (primeOps p) f = true ↔ f = [0] := by
+  unfold UPoly.isZero
+  split
+  · rename_i c
+    change (c == 0) = true ↔ _
+    simp
+  · rename_i h
+    constructor
+    · intro h'; cases h'
+    · intro h'; exact absurd h' (h 0)
+
+theorem uPairs_ne_nil {p : Nat} {f : UPoly Nat} (hf : UPoly.Canon (primeOps p) f)
+    (hz : UPoly.isZero (primeOps p) f = false) : uPairs p f ≠ [] := by
+  intro hnil
+  have hall : ∀ i, f.getD i 0 = ([0] : UPoly Nat).getD i 0 := by
+    intro i
+    have h0 : f.getD i 0 = 0 := by
+      by_cases h : f.getD i 0 = 0
+      · exact h
+      · have : (f.getD i 0, i) ∈ uPairs p f := mem_uPairs.2 ⟨rfl, h⟩
+        rw [hnil] at this; cases this
+    rw [h0]
+    cases i <;> rfl
+  have hc0 : UPoly.Canon (primeOps p) [0] := ⟨by simp, by simp⟩
+  have := canon_ext hf hc0 hall
+  rw [(isZero_iff p f).2 this] at hz
+  cases hz
+
+/-- `UPoly.toStr` over a prime field is injective on canonical polynomials, for every variable
+    name whose first character is neither a digit nor a blank. -/
+theorem utoStr_injective {p : Nat} {v : String} {x : Char} {vt : List Char}
+    (hv : v.toList = x :: vt) (hx1 : x.isDigit = false) (hx2 : x ≠ ' ')
+    {f g : UPoly Nat} (hf : UPoly.Canon (primeOps p) f) (hg : UPoly.Canon (primeOps p) g)
+    (h : UPoly.toStr (primeOps p) v f = UPoly.toStr (primeOps p) v g) : f = g := by
+  rw [utoStr_eq, utoStr_eq] at h
+  have hmap : ∀ k : UPoly Nat,
+      ((UPoly.degrees (primeOps p) k).map fun d => uTerm v (UPoly.coef (primeOps p) k d) d) =
+        (uPairs p k).map fun t => uTerm v t.1 t.2 := by
+    intro k; unfold uPairs; rw [List.map_map]; rfl
+  rw [hmap f, hmap g] at h
+  have hnz : ∀ k : UPoly Nat, ∀ t ∈ uPairs p k, t.1 ≠ 0 := fun k t ht => (mem_uPairs.1 ht).2
+  cases zf : UPoly.isZero (primeOps p) f <;> cases zg : UPoly.isZero (primeOps p) g
+  · rw [zf, zg] at h
+    simp only [Bool.false_eq_true, if_false] at h
+    have hJ : JU v (uPairs p f) = JU v (uPairs p g) := congrArg String.toList h
+    have := JU_inj hv hx1 hx2 (uPairs_ne_nil hf zf) (uPairs_ne_nil hg zg) hJ
+    exact canon_ext hf hg (getD_eq_of_uPairs_eq this)
+  · exfalso
+    rw [zf, zg] at h
+    simp only [Bool.false_eq_true, if_false, if_true] at h
+    exact JU_ne_zero hv hx1 (uPairs_ne_nil hf zf) (hnz f) (congrArg String.toList h)
+  · exfalso
+    rw [zf, zg] at h
+    simp only [Bool.false_eq_true, if_false, if_true] at h
+    exact JU_ne_zero hv hx1 (uPairs_ne_nil hg zg) (hnz g) (congrArg String.toList h).symm
+  · rw [(isZero_iff p f).1 zf, (isZero_iff p g).1 zg]
+
+/-- an ASCII letter is neither a digit nor a blank -/
+theorem isAlpha_not_digit {c : Char} (h : c.isAlpha = true) : c.isDigit = false ∧ c ≠ ' ' := by
+  constructor
+  · cases hd : c.isDigit with
+    | false => rfl
+    | true =>
+      exfalso
+      simp only [Char.isAlpha, Char.isUpper, Char.isLower, Char.isDigit, Bool.or_eq_true,
+        Bool.and_eq_true, decide_eq_true_eq] at h hd
+      have h1 := hd.1; have h2 := hd.2
+      simp only [UInt32.le_iff_toNat_le] at h h1 h2
+      simp at h h1 h2
+      omega
+  · rintro rfl
+    exact absurd h (by decide)
+
+/-! ### error kinds of the regex-based parsers (whatever the regex engine returns) -/
+
+theorem bin_go_error {l : List (Array String)} {val : Nat} {k : Kind}
+    (h : Bin.parse.go l val = .error k) : k = .inputValue ∨ k = .inputTooLarge := by
+  induction l generalizing val with
+  | nil => unfold Bin.parse.go at h; cases h
+  | cons g t ih =>
+    unfold Bin.parse.go at h
+    simp only at h
+    split at h
+    · exact ih h
+    · split at h
+      · exact ih h
+      · split at h
+        · exact ih h
+        · split at h
+          · injection h with h; exact Or.inl h.symm
+          · split at h
+            · injection h with h; exact Or.inr h.symm
+            · exact ih h
+
+theorem bin_parse_error {n m : Nat} {v s : String} {k : Kind}
+    (h : Bin.parse n m v s = .error k) :
+    k = .inputValue ∨ k = .parsing ∨ k = .inputTooLarge := by
+  unfold Bin.parse at h
+  simp only at h
+  split at h
+  · injection h with h; exact Or.inl h.symm
+  · split at h
+    · injection h with h; exact Or.inr (Or.inl h.symm)
+    · split at h
+      · cases h
+      · rename_i hk
+        injection h with h
+        subst h
+        rcases bin_go_error hk with e | e
+        · exact Or.inl e
+        · exact Or.inr (Or.inr e)
+
+theorem u_go_error {α : Type} {F : FOps α} {l : List (Array String)} {out : List (Nat × α)}
+    {k : Kind} (h : UPoly.stringToMap.go F l out = .error k) :
+    k = .internal ∨ k = .parsing ∨ k = .conversion := by
+  induction l generalizing out with
+  | nil => unfold UPoly.stringToMap.go at h; cases h
+  | cons g t ih =>
+    unfold UPoly.stringToMap.go at h
+    simp only at h
+    split at h
+    · injection h with h; simp [← h]
+    · split at h
+      · injection h with h; simp [← h]
+      · split at h
+        · rename_i k' hk
+          injection h with h; subst h
+          split at hk
+          · cases hk
+          · split at hk
+            · cases hk
+            · injection hk with hk; simp [← hk]
+        · split at h
+          · rename_i k' hk
+            injection h with h; subst h
+            split at hk
+            · split at hk
+              · cases hk
+              · split at hk
+                · cases hk
+                · injection hk with hk; simp [← hk]
+            · cases hk
+          · exact ih h
+
+theorem u_stringToMap_error {α : Type} {F : FOps α} {v s : String} {k : Kind}
+    (h : UPoly.stringToMap F v s = .error k) :
+    k = .internal ∨ k = .parsing ∨ k = .conversion := by
+  unfold UPoly.stringToMap at h
+  simp only at h
+  split at h
+  · injection h with h; simp [← h]
+  · split at h
+    · injection h with h; simp [← h]
+    · exact u_go_error h
+
+theorem u_parse_error {α : Type} {R : UPoly.Ring α} {s : String} {k : Kind}
+    (h : UPoly.parse R s = .error k) : k = .internal ∨ k = .parsing ∨ k = .conversion := by
+  unfold UPoly.parse at h
+  split at h
+  · rename_i k' hk
+    injection h with h; subst h
+    exact u_stringToMap_error hk
+  · cases h
+
+/-- extension-field `ElementFromString` wraps every failure as Parsing -/
+theorem ext_parse_error {p : Nat} {g : List Nat} {s : String} {k : Kind}
+    (h : Ext.parse p g s = .error k) : k = .parsing := by
+  unfold Ext.parse at h
+  split at h
+  · cases h
+  · injection h with h; exact h.symm
+  · injection h with h; exact h.symm
+
+theorem b_go_error {α : Type} {F : FOps α} {v0 v1 : String} {l : List (Array String)}
+    {out : List (Deg × α)} {k : Kind} (h : BPoly.stringToMap.go F v0 v1 l out = .error k) :
+    k = .parsing ∨ k = .conversion := by
+  induction l generalizing out with
+  | nil => unfold BPoly.stringToMap.go at h; cases h
+  | cons g t ih =>
+    unfold BPoly.stringToMap.go at h
+    simp only at h
+    split at h
+    · injection h with h; simp [← h]
+    · split at h
+      · injection h with h; simp [← h]
+      · split at h
+        · injection h with h; simp [← h]
+        · split at h
+          · rename_i k' hk
+            injection h with h; subst h
+            split at hk
+            · cases hk
+            · split at hk
+              · cases hk
+              · injection hk with hk; simp [← hk]
+          · split at h
+            · injection h with h; simp [← h]
+            · split at h
+              · injection h with h; simp [← h]
+              · exact ih h
+
+theorem b_stringToMap_error {α : Type} {R : BPoly.Ring α} {s : String} {k : Kind}
+    (h : BPoly.stringToMap R s = .error k) :
+    k = .internal ∨ k = .parsing ∨ k = .conversion := by
+  unfold BPoly.stringToMap at h
+  simp only at h
+  split at h
+  · injection h with h; simp [← h]
+  · split at h
+    · injection h with h; simp [← h]
+    · split at h
+      · injection h with h; simp [← h]
+      · rcases b_go_error h with e | e
+        · exact Or.inr (Or.inl e)
+        · exact Or.inr (Or.inr e)
+
+theorem b_parse_error {α : Type} {R : BPoly.Ring α} {s : String} {k : Kind}
+    (h : BPoly.parse R s = .error k) : k = .internal ∨ k = .parsing ∨ k = .conversion := by
+  unfold BPoly.parse at h
+  split at h
+  · rename_i k' hk
+    injection h with h; subst h
+    exact b_stringToMap_error hk
+  · cases h
+
+/-! ### `strings.Trim(s, "()")` -/
+
+def isParen (c : Char) : Bool := c == '(' || c == ')'
+
+theorem trimParens_toList (s : String) :
+    (UPoly.trimParens s).toList =
+      ((s.toList.dropWhile isParen).reverse.dropWhile isParen).reverse := by
+  unfold UPoly.trimParens
+  rw [String.toList_ofList]
+  rfl
+
+theorem dropWhile_of_head {l : List Char} (h : ∀ c ∈ l.head?, isParen c = false) :
+    l.dropWhile isParen = l := by
+  cases l with
+  | nil => rfl
+  | cons x t => rw [List.dropWhile_cons_of_neg]; simp [h x (by simp)]
+
+/-- a string that neither starts nor ends with a parenthesis is left alone -/
+theorem trimParens_eq_self {s : String} (h1 : ∀ c ∈ s.toList.head?, isParen c = false)
+    (h2 : ∀ c ∈ s.toList.getLast?, isParen c = false) : UPoly.trimParens s = s := by
+  apply String.toList_inj.1
+  rw [trimParens_toList, dropWhile_of_head h1, dropWhile_of_head (by simpa using h2)]
+  simp
+
+/-- the parentheses the polynomial printers put around a multi-term coefficient are removed again -/
+theorem trimParens_wrap {s : String} (h1 : ∀ c ∈ s.toList.head?, isParen c = false)
+    (h2 : ∀ c ∈ s.toList.getLast?, isParen c = false) :
+    UPoly.trimParens ("(" ++ s ++ ")") = s := by
+  apply String.toList_inj.1
+  rw [trimParens_toList]
+  have e : ("(" ++ s ++ ")").toList = '(' :: (s.toList ++ [')']) := by simp
+  rw [e, List.dropWhile_cons_of_pos (by decide)]
+  cases hs : s.toList with
+  | nil => simp [isParen]
+  | cons x t =>
+    rw [hs] at h1 h2
+    have hx : isParen x = false := h1 x (by simp)
+    rw [List.cons_append, List.dropWhile_cons_of_neg (by simp [hx])]
+    rw [← List.cons_append, List.reverse_append]
+    simp only [List.reverse_cons, List.reverse_nil, List.nil_append, List.singleton_append]
+    rw [List.dropWhile_cons_of_pos (by decide)]
+    have : ((t.reverse ++ [x]).dropWhile isParen) = t.reverse ++ [x] := by
+      apply dropWhile_of_head
+      intro c hc
+      apply h2 c
+      have : (x :: t).getLast? = (t.reverse ++ [x]).head? := by
+        rw [← List.reverse_cons, List.head?_reverse]
+      rw [this]; exact hc
+    rw [this]; simp
 
 end Algobra.Strings
